@@ -109,10 +109,10 @@ def run(ctx):
     # (b) bytes: L=8, S=2 (the design's scale), two buffer sizes
     ns = range(0, 3 * 80 + 4) if T else sizes_from_tlc(8, 2, (-1, 0, 1))
     for n in ns:
-        execs.append(scaled_exec(rng, 8, 2, rng.choice((1, 2)), n, 1, False,
+        execs.append(scaled_exec(rng, 8, 2, rng.choice((1, 2)), n, 1, T and n % 80 in (0, 1, 41, 60, 61),
                                  losses(None if T and n in (80, 161) else 2)))
     # (c) needle alignment: L=64, S=16 (8 and 2 units of 8 bytes), 8-aligned offsets and sizes
-    for n in sizes_from_tlc(64, 16, (-8, -1, 0, 1, 8)):
+    for n in sizes_from_tlc(64, 16, (-8, -1, 0, 1, 8) if T else (-8, 0, 8)):
         execs.append(scaled_exec(rng, 64, 16, rng.choice((8, 16)), n, 8, T and n % 640 in (0, 8, 480, 488),
                                  losses(2 if T else 1)))
     if T:
@@ -208,7 +208,7 @@ def run(ctx):
                 "rebuilds after removing %s; plus executions with the production block sizes (10-23 MiB data files: WriteEcFiles, "
                 "reads, RebuildEcFiles, the real EcVolume + EcVolumeShards over an index of made-up needles (LocateEcShardNeedle + shard ReadAt), "
                 "WriteDatFile). non-trivial = at least two read/rebuild events; distinct by hash of "
-                "the recorded execution" % ("every size for (4,1) and boundary files of (64,16), sampled sizes elsewhere" if T
+                "the recorded execution" % ("every size for (4,1) and for the boundary/window files of (8,2) and (64,16), sampled sizes elsewhere" if T
                                             else "sizes ending on/around every block and row boundary + random ones",
                                             "every one of the 1470 loss sets of <= 4 shards on 2 files, 2-3 sampled sets on every other file"
                                             if T else "1-2 sampled loss sets of <= 4 shards per file"))
